@@ -233,6 +233,25 @@ Definition default_row (names : list string) (nsp : bool) (v : nsview) : list va
 Definition empty_sa (n : nat) (names : list string) (nsp : bool) (v : nsview) : res sarr :=
   mk_arr names nsp v (repeat (default_row names nsp v) n).
 
+(* empty_structured_array(n, dtype=...) with a caller-supplied dtype: the fields may come in ANY
+   order.  The parameter fields are "those whose name is not a non-sampling parameter"; they are filled
+   with the default float value, then every non-sampling field is assigned BY NAME from
+   zip(non_sampling_parameters, non_sampling_defaults).  A non-sampling parameter that is missing from the
+   dtype is a ValueError (n > 0 only: n = 0 returns before anything is assigned). *)
+Fixpoint assoc_def (n : string) (names : list string) (defs : list val) : option val :=
+  match names, defs with
+  | k :: names', d :: defs' => if String.eqb n k then Some d else assoc_def n names' defs'
+  | _, _ => None
+  end.
+Definition field_default (v : nsview) (n : string) : val :=
+  match assoc_def n (ns_names v) (ns_defs v) with Some d => d | None => ns_fill v end.
+Definition empty_sa_dtype (n : nat) (fields : list (string * kind)) (v : nsview) : res sarr :=
+  if aligned v && nodupb (map fst fields)
+     && ((n =? 0)%nat || forallb (fun nm => mem nm (map fst fields)) (ns_names v))
+  then Ok {| s_names := map fst fields; s_kinds := map snd fields;
+             s_rows := repeat (map (fun f => field_default v (fst f)) fields) n |}
+  else Err.
+
 (* numpy_array_to_live_points: a 1-d input is one row; size 0 gives the empty array;
    columns beyond len(names) are ignored, fewer is an IndexError *)
 Definition np_to_lp (a : list (list val)) (names : list string) (nsp : bool) (v : nsview) : res sarr :=
